@@ -111,6 +111,7 @@ for _i in range(NTREE):
     TREES.append((_kind,) + (tg.twin_tree(_r, _kind) if _i % 4 == 3 else tg.random_tree(_r, _kind)))
 for _name in ('plain_hp', 'plain_h5', 'multiroot_hp', 'scripty_hp', 'scripty_lxml', 'scripty_h5'):
     TREES.append(('html', tg.doc(_name), None))
+TREES.append(('xml',) + tg.ns_siblings_tree())
 NT = len(TREES)
 
 
